@@ -107,6 +107,10 @@ class Ctx:
         self.rng = random.Random(seed * 1000003 + int(prop[1:]))
         self.t0 = time.time()
         self.tmp = tempfile.mkdtemp(prefix="verif-%s-" % prop, dir=os.environ.get("VERIF_TMP", "/var/tmp"))
+        # every temporary file of this run (ours, the implementation runners', mdtraj's own) lands in the
+        # scratch directory, which cleanup() removes: nothing is left under /tmp
+        os.environ["TMPDIR"] = self.tmp
+        tempfile.tempdir = None
         self.failures = []          # list of Failure
         self.cov = {"evaluations": 0, "samples": [], "histogram": {}}
         self.seen = set()
